@@ -8,10 +8,10 @@ CONSTANTS
   MaxLen = 0
   GenOn = FALSE
   Fam = "c05"
-  MaxKill = 1
+  MaxKill = 2
   MaxDetach = 1
-  MaxEnv = 1
-  NPS = 2
+  MaxEnv = 0
+  NPS = 1
   MaxFail = 0
 INVARIANTS AckedExclusive AckedOnDisk OneWriter GcAlone
 VIEW MCView
